@@ -3,6 +3,7 @@ package c01
 import (
 	"fmt"
 	"strings"
+	"sync/atomic"
 	"testing"
 
 	"github.com/tdewolff/parse/v2"
@@ -16,6 +17,8 @@ import (
 	"verif/internal/ev"
 	"verif/internal/gen"
 )
+
+var freshRune int64
 
 // consume drives one entry point over src to the end and returns a short transcript
 func consume(lang string, src []byte) string {
@@ -81,7 +84,7 @@ func consume(lang string, src []byte) string {
 // TestProp_Concurrent: every call returns normally also while other goroutines lex and parse other inputs (a fatal error
 // of the runtime, such as a concurrent map write, ends the test binary: the driver reports that as a violation too)
 func TestProp_Concurrent(t *testing.T) {
-	ev.Describe("concurrent", "6-16 hostile inputs (fragment strings and mutated repository literals of css, html, xml, json and js, the js ones with identifier characters outside Latin-1), each consumed to the end 100 times over, first one after the other and then by as many goroutines at once (3 rounds behind a barrier); oracle: no panic, no fatal error of the runtime, every goroutine gets the transcript it gets alone; non-trivial = >= 6 goroutines")
+	ev.Describe("concurrent", "6-16 hostile inputs (fragment strings and mutated repository literals of css, html, xml, json and js, the js ones with identifier characters outside Latin-1), each consumed to the end 100 times over (every time followed by an identifier with a CJK character that the process has not met before), first one after the other and then by as many goroutines at once (3 rounds behind a barrier); oracle: no panic, no fatal error of the runtime, every goroutine gets the transcript it gets alone; non-trivial = >= 6 goroutines")
 	ev.Check(t, 60, func(t *rapid.T) {
 		n := rapid.IntRange(6, 16).Draw(t, "goroutines")
 		langs := make([]string, n)
@@ -101,6 +104,13 @@ func TestProp_Concurrent(t *testing.T) {
 			s := ""
 			for r := 0; r < 100; r++ {
 				s = consume(langs[i], srcs[i])
+				// and an identifier with a character that no call of this process has met so far (what the library learns
+				// about a character on first sight, it learns while other goroutines are at work)
+				fr := rune(0x4e00 + atomic.AddInt64(&freshRune, 1)%20000)
+				l := js.NewLexer(parse.NewInputString("a" + string(fr) + "b c"))
+				if tt, data := l.Next(); tt != js.IdentifierToken || len(data) != 5 {
+					s += fmt.Sprintf(" [a%cb lexes as %v %q]", fr, tt, data)
+				}
 			}
 			return s
 		})
